@@ -33,7 +33,7 @@ def plan(thorough):
     if not thorough:
         return [
             ("sim", dict(slots=S3, fams=("dv", "dvb", "sv", "csr", "bcsr", "cscr", "banded", "dm", "tv"), depth=9),
-             dict(simulate=100, depth=10, tseed=vlib.seed())),
+             dict(simulate=60, depth=10, tseed=vlib.seed())),
             # dense vectors, blocked <-> plain conversion (aliasing), ranged (foreign) slices
             ("vec3", dict(slots=S2, fams=("dv", "dvb"), depth=3, tys=(1, 3), vars_=("n4", "n0", "b2", "b0")), {}),
             ("vecx4", dict(slots=S3, fams=("dv", "dvb"), depth=4, tys=(1,), vars_=("n4", "b2"), modes=("shallow",),
@@ -51,31 +51,34 @@ def plan(thorough):
             # conversions between matrix families
             ("matx3", dict(slots=S2, fams=("csr", "banded", "cscr", "bcsr"), depth=3, tys=(1, 2), modes=("weak",),
                            vars_=("full", "band", "o2", "bare"), ops=("create", "convertx", "clone", "destroy", "poke")), {}),
+            ("xchain4", dict(slots=S3, fams=("csr", "banded", "bcsr", "cscr"), depth=4, tys=(1,), vars_=("full", "o2"), ops=("create", "convertx")), {}),
             ("fam2", dict(slots=S2, fams=("cscr", "banded", "dm"), depth=2), {}),
         ]
     return [
-        ("vec3", dict(slots=S3, fams=("dv", "dvb"), depth=3, tys=(1, 3)), {}),
-        ("vec4", dict(slots=S2, fams=("dv", "dvb"), depth=4, tys=(1, 3), vars_=("n4", "n0", "b2")), {}),
-        ("vecx5", dict(slots=S3, fams=("dv", "dvb"), depth=5, tys=(1,), vars_=("n4", "b2"), modes=("shallow", "deep"),
-                       ops=("create", "convertx", "range", "move", "destroy", "clear", "poke")), {}),
+        ("sim", dict(slots=S4, fams=("dv", "dvb", "sv", "csr", "bcsr", "cscr", "banded", "dm", "tv"), depth=14),
+         dict(simulate=150, depth=15, tseed=vlib.seed())),
+        ("simvec", dict(slots=S4, fams=("dv", "dvb", "sv", "tv"), depth=16), dict(simulate=150, depth=17, tseed=vlib.seed() + 1)),
+        ("simmat", dict(slots=S4, fams=("csr", "bcsr", "cscr", "banded"), depth=12), dict(simulate=150, depth=13, tseed=vlib.seed() + 2)),
+        ("vec3", dict(slots=S3, fams=("dv", "dvb"), depth=3, tys=(1, 3), vars_=("n4", "n0", "b2", "b0")), {}),
+        ("vec4", dict(slots=S2, fams=("dv", "dvb"), depth=4, tys=(1,), vars_=("n4", "n0", "b2")), {}),
+        ("vecx5", dict(slots=S3, fams=("dv", "dvb"), depth=5, tys=(1,), vars_=("n4", "b2"), modes=("shallow",),
+                       ops=("create", "convertx", "range", "move", "destroy")), {}),
         ("vecty3", dict(slots=S2, fams=("dv", "dvb"), depth=3), {}),
         ("sv4", dict(slots=S2, fams=("sv",), depth=4, tys=(1, 2)), {}),
         ("sv3", dict(slots=S3, fams=("sv",), depth=3), {}),
-        ("svpush7", dict(slots=S2, fams=("sv",), depth=7, tys=(1,), modes=("shallow", "weak"), ops=("create", "push", "clone", "destroy", "poke")), {}),
+        ("svpush6", dict(slots=S2, fams=("sv",), depth=6, tys=(1,), modes=("shallow",), ops=("create", "push", "clone", "destroy")), {}),
+        ("svpush6b", dict(slots=S2, fams=("sv",), depth=6, tys=(1,), vars_=("f",), modes=("shallow", "weak"), ops=("create", "push", "clone", "poke")), {}),
         ("tv4", dict(slots=S2, fams=("tv",), depth=4, tys=(1, 2)), {}),
         ("tv3", dict(slots=S3, fams=("tv",), depth=3), {}),
-        ("mat3", dict(slots=S3, fams=("csr", "bcsr"), depth=3, tys=(1, 3), vars_=("full", "band", "nz0", "bare")), {}),
-        ("lay5", dict(slots=S3, fams=("csr", "bcsr"), depth=5, tys=(1,), vars_=("full", "band", "bare"), ops=("create", "layout", "destroy", "clone"),
-                      modes=("layout",)), {}),
-        ("bcsr4", dict(slots=S2, fams=("bcsr",), depth=4, tys=(1, 3), vars_=("full", "nz0", "bare")), {}),
-        ("matx4", dict(slots=S2, fams=("csr", "banded", "cscr", "bcsr"), depth=4, tys=(1, 2), modes=("weak", "shallow"),
+        ("mat3", dict(slots=S2, fams=("csr", "bcsr"), depth=3), {}),
+        ("lay5", dict(slots=S3, fams=("csr", "bcsr"), depth=5, tys=(1,), vars_=("full",), ops=("create", "layout", "destroy")), {}),
+        ("lay6", dict(slots=S3, fams=("bcsr",), depth=6, tys=(1,), vars_=("full",), ops=("create", "layout", "destroy")), {}),
+        ("bcsr4", dict(slots=S2, fams=("bcsr",), depth=4, tys=(1,), vars_=("full", "nz0", "bare")), {}),
+        ("matx4", dict(slots=S2, fams=("csr", "banded", "cscr", "bcsr"), depth=4, tys=(1,), modes=("weak",),
                        vars_=("full", "band", "o2", "bare"), ops=("create", "convertx", "clone", "destroy", "poke", "move")), {}),
-        ("matx3", dict(slots=S3, fams=("csr", "banded", "cscr", "bcsr"), depth=3), {}),
+        ("matx3", dict(slots=S2, fams=("csr", "banded", "cscr", "bcsr"), depth=3), {}),
+        ("xchain5", dict(slots=S3, fams=("csr", "banded", "bcsr", "cscr"), depth=5, tys=(1,), vars_=("full", "o2"), ops=("create", "convertx")), {}),
         ("fam3", dict(slots=S2, fams=("cscr", "banded", "dm"), depth=3), {}),
-        ("sim", dict(slots=S4, fams=("dv", "dvb", "sv", "csr", "bcsr", "cscr", "banded", "dm", "tv"), depth=14),
-         dict(simulate=4000, depth=15, tseed=vlib.seed())),
-        ("simvec", dict(slots=S4, fams=("dv", "dvb", "sv", "tv"), depth=16), dict(simulate=2500, depth=17, tseed=vlib.seed() + 1)),
-        ("simmat", dict(slots=S4, fams=("csr", "bcsr", "cscr", "banded"), depth=12), dict(simulate=2500, depth=13, tseed=vlib.seed() + 2)),
     ]
 
 
@@ -113,6 +116,13 @@ def key_of(c):
     return json.dumps([[s["op"], s["args"]] for s in c["steps"]], sort_keys=True)
 
 
+def _tlc_run(nm, fn, tk):
+    r = vlib.tlc("LifetimeX", fn, workers=(1 if tk else 2), timeout=3000, xmx="3g", tag="LifetimeX_" + nm, **tk)
+    if not r.violation:
+        r.out = ""       # (hundreds of megabytes of printed behaviours; r.printed has them parsed)
+    return r
+
+
 def run_ext(chk, binary=None):
     """generate the behaviours of spec/LifetimeX.tla for the tier and replay them run by run (the behaviours of a run are
     dropped after their replay: memory stays bounded by the largest run); counts go to chk"""
@@ -132,7 +142,7 @@ def run_ext(chk, binary=None):
             for nm, ck, tk in jobs:
                 fn = cfg(nm, **ck)
                 names.append(fn)
-                futs[ex.submit(vlib.tlc, "LifetimeX", fn, workers=(1 if tk else 2), timeout=3000, xmx="3g", tag="LifetimeX_" + nm, **tk)] = nm
+                futs[ex.submit(_tlc_run, nm, fn, tk)] = nm
             for f in cf.as_completed(futs):
                 nm = futs[f]
                 r = f.result()
